@@ -396,7 +396,80 @@ fn block_beyond_the_length_field(acc: &mut Acc) {
     }
 }
 
+/// Frames whose *compressed* length sits exactly on a width boundary of its varint (2^7, 2^14, 2^21 and one either
+/// side): stored blocks (level 0) grow by a known amount, so the content size is searched for, not guessed.
+fn compressed_length_at_width_boundaries(acc: &mut Acc) {
+    use desert::SizeCalculator;
+    for boundary in [1usize << 7, 1 << 14, 1 << 21] {
+        for target in [boundary - 1, boundary, boundary + 1] {
+            // level 0: compressed length = n + 5 per stored block (the deflater cuts blocks of about 32 KiB)
+            let mut found = None;
+            for n in target.saturating_sub(5 * (target / 30_000 + 3))..=target {
+                let data = vec![0x5au8; n];
+                let mut v: Vec<u8> = Vec::new();
+                if v.write_compressed(&data, Compression::new(0)).is_err() {
+                    continue;
+                }
+                if payload_len(&v) == target {
+                    found = Some((data, v));
+                    break;
+                }
+            }
+            let Some((data, frame)) = found else {
+                acc.count("compressed_length_boundary_not_reachable_at_level_0");
+                continue;
+            };
+            acc.case(Some((target as u64) << 8 | 0xC1));
+            let r = guarded(
+                || -> Result<(), String> {
+                    let mut sc = SizeCalculator::new();
+                    sc.write_compressed(&data, Compression::new(0)).map_err(|e| e.to_string())?;
+                    if sc.size() != frame.len() {
+                        return Err(format!("SizeCalculator counted {} bytes for a frame of {}", sc.size(), frame.len()));
+                    }
+                    let mut b = BytesMut::new();
+                    b.write_compressed(&data, Compression::new(0)).map_err(|e| e.to_string())?;
+                    if b[..] != frame[..] {
+                        return Err("BytesMut frame differs from the Vec frame".into());
+                    }
+                    let want: Vec<u8> = [&vu_bytes(data.len() as u32)[..], &vu_bytes(target as u32)[..]].concat();
+                    if frame[..want.len()] != want[..] {
+                        return Err(format!("frame header {} expected {}", hex(&frame[..want.len()]), hex(&want)));
+                    }
+                    for (name, back) in [
+                        ("SliceInput", SliceInput::new(&frame).read_compressed()),
+                        ("OwnedInput", OwnedInput::new(frame.clone()).read_compressed()),
+                        ("DeserializationContext", DeserializationContext::new(&frame).read_compressed()),
+                    ] {
+                        match back {
+                            Ok(d) if d == data => {}
+                            other => return Err(format!("{name} read back {:?}", other.map(|d| d.len()).map_err(|e| e.to_string()))),
+                        }
+                    }
+                    Ok(())
+                },
+                |_| None,
+            );
+            match r {
+                Outcome::Done(Ok(())) => acc.count("compressed_lengths_at_width_boundaries_ok"),
+                Outcome::Done(Err(w)) => acc.violation(
+                    "C16|compressed_length_boundary|mismatch".to_string(),
+                    J::obj().with("check", J::s("C16")).with("mode", J::s("content")).with("compressed_length", J::u(target as u64)).with("content_length", J::u(data.len() as u64)).with("what", J::s(w)),
+                ),
+                Outcome::Panicked(p) => acc.violation(
+                    "C16|compressed_length_boundary|panic".to_string(),
+                    J::obj().with("check", J::s("C16")).with("mode", J::s("content")).with("compressed_length", J::u(target as u64)).with("what", J::s(monitors::normalise_site(&p.site))),
+                ),
+                Outcome::StepBudget(_) => {}
+            }
+        }
+    }
+}
+
 pub fn c16(ctx: &mut Ctx, acc: &mut Acc) -> i32 {
+    if ctx.shard == 1 % ctx.shards {
+        compressed_length_at_width_boundaries(acc);
+    }
     if !cfg!(debug_assertions) && ctx.shard == 0 {
         block_beyond_the_length_field(acc);
     }
